@@ -10,6 +10,38 @@ COMMON_NOTE = ("Trusted base: pyvc engine (AST transform T1-T3 of the real sourc
                "lift to C), A3 (integer powers), A4 (path forking via z3), A5 (numpy shim contracts, listed per run in evidence.trusted_base). ")
 
 CLAIMED = {
+    "C11": dict(
+        category="proof",
+        text=("With v.gamma_k = 0 imposed by parametrisation for a symbolic row vector v, v.K = v is proved for every singlet kernel through the "
+              "dispatcher (8 methods x orders 1-4 x nf), the QED singlet/valence iterated kernels, all scale-variation kernels and re-expanded "
+              "anomalous dimensions (QCD and QED), and build_ome (forward/expanded/exact). Iterated and perturbative kernels are proved for ANY "
+              "ev_op_iterations and ANY ev_op_max_order by inductive loop invariants (the real loop bodies are cut by an AST transform and executed "
+              "for an arbitrary iteration over abstract arrays); callers are checked against callee contracts (exp_matrix_2D, r_vec, u_vec, sum_u), "
+              "each proved on the callee's own body."),
+        note=COMMON_NOTE + "Lemmas: loop-invariant induction; v.M=0 => v.MatExp(M)=v (power series) for the LAPACK-based exp_matrix (tied to MatExp by C23 relative to the eig contract). Evolution integrals enter the decompose kernels as arbitrary scalars; cubic roots opaque. Quick tier: nf in {4,6}; thorough: nf 3-6.",
+        technique="contract-based deductive verification: modular contracts + inductive loop invariants (T4 cut) + exact normal form with sign atoms",
+        design_ref="DESIGN.md section 2, C11",
+    ),
+    "C22": dict(
+        category="proof",
+        text=("build_ome forward x expanded-backward = 1 + O(a^(n+1)) in both orders for n=0..3 with generic symbolic 2x2 and 3x3 matching matrices "
+              "(complete for the free algebra at degree <= 3), exact-backward = exact inverse; invert_matching_coeffs composes with arbitrary symbolic "
+              "decoupling coefficients to x + O(x^5) (series ring), same for the concrete POLE/MSBAR tables for all nf, and F_up F_down = 1 + O(a^4) "
+              "for the MSbar mass decoupling factors."),
+        note=COMMON_NOTE + "Amitsur-Levitzki lemma (no polynomial identity of degree < 4 for 2x2 matrices). Quick tier skips the 3x3 exact inverse at n>=2.",
+        technique="contract-based deductive verification: symbolic execution over generic matrices and truncated series + exact normal form",
+        design_ref="DESIGN.md section 2, C22",
+    ),
+    "C23": dict(
+        category="proof",
+        text=("exp_matrix_2D on a fully symbolic 2x2 matrix: projector algebra, completeness, spectral reconstruction, trace/determinant of the eigenvalues "
+              "and exp = sum exp(l_i) e_i as polynomial identities modulo the defining relation of the square root (valid over C, either branch); "
+              "exp_matrix (dims 2, 4) relative to the assumed LAPACK eig contract imposed by the parametrisation M := V diag(w) V^-1. With the spectral-"
+              "calculus lemma this is 'equals the matrix exponential'. Accuracy of LAPACK is not covered."),
+        note=COMMON_NOTE + "Assumed: np.linalg.eig returns a diagonalising pair; lemma spectral calculus.",
+        technique="contract-based deductive verification: symbolic execution + exact normal form modulo radical relations",
+        design_ref="DESIGN.md section 2, C23",
+    ),
     "C07": dict(
         category="proof",
         text=("For each exact non-singlet kernel the returned term is shown to be exp(X) with dX/da1 * beta_n(a1) = gamma_n(a1) and X(a0,a0)=0 "
